@@ -52,6 +52,11 @@ type lockHistory struct {
 	Seed       int64         `json:"seed"`
 	Ops        []lockOp      `json:"ops,omitempty"`
 	CS         []lockCS      `json:"critical_sections,omitempty"`
+	// MaxStall is the longest delay the history's own probe saw while the contenders ran: how much a 1 ms sleep
+	// overshot (scheduler starvation) and, on etcd, how long a Put on an unrelated key took. The timing clauses
+	// of the oracle (lease arithmetic, "without waiting") mean nothing on a machine that stalls for a sizeable
+	// part of the ttl, so such a history is not judged (counted, never a violation).
+	MaxStall time.Duration `json:"max_probe_stall_ns,omitempty"`
 }
 
 type lockIn struct {
@@ -93,6 +98,31 @@ func runLockHistory(s *stores, h *lockHistory) {
 	now := func() int64 { return int64(time.Since(start)) }
 	var mu sync.Mutex
 	var wg sync.WaitGroup
+	probeStop, probeDone := make(chan struct{}), make(chan struct{})
+	go func() {
+		defer close(probeDone)
+		for i := 0; ; i++ {
+			select {
+			case <-probeStop:
+				return
+			default:
+			}
+			t0 := time.Now()
+			time.Sleep(time.Millisecond)
+			d := time.Since(t0) - time.Millisecond
+			if h.Backend == "etcd" && i%4 == 0 {
+				t1 := time.Now()
+				_, _ = s.cli.Put(context.Background(), "/probe/"+h.Key, "x")
+				if e := time.Since(t1); e > d {
+					d = e
+				}
+			}
+			if d > h.MaxStall {
+				h.MaxStall = d
+			}
+		}
+	}()
+	defer func() { close(probeStop); <-probeDone }()
 	for c := 0; c < h.Contenders; c++ {
 		wg.Add(1)
 		go func(c int) {
@@ -175,8 +205,34 @@ func runLockHistory(s *stores, h *lockHistory) {
 func judgeLockHistory(rec *vkit.Rec, h *lockHistory) {
 	b := h.Backend
 	viol := func(key, what string) { rec.Violation(b+"/"+key, what+fmt.Sprintf(" — %s, %d contenders, ttl %v", b, h.Contenders, h.TTL), h) }
+	switch {
+	case h.MaxStall < h.TTL/100:
+		rec.Count("probe_max_stall/"+b+"/below-1%-of-ttl", 1)
+	case h.MaxStall < h.TTL/30:
+		rec.Count("probe_max_stall/"+b+"/1-3%-of-ttl", 1)
+	case h.MaxStall <= h.TTL/10:
+		rec.Count("probe_max_stall/"+b+"/3-10%-of-ttl", 1)
+	case h.MaxStall <= h.TTL/4:
+		rec.Count("probe_max_stall/"+b+"/10-25%-of-ttl", 1)
+	default:
+		rec.Count("probe_max_stall/"+b+"/above-25%-of-ttl", 1)
+	}
+	if h.MaxStall > h.TTL/10 {
+		rec.Count("histories_not_judged_machine_stalled/"+b, 1)
+		return
+	}
 	// (1) critical sections must not overlap (holders stayed within their lease)
 	excused := false
+	for _, cs := range h.CS {
+		// a holder that outlived its lease (its context was cancelled, or on redis the wall clock says so) is
+		// outside the property's antecedent: what follows in that history is not judged against the mutex model
+		if cs.CtxDone || (b == "redis" && time.Duration(cs.Exit-cs.Enter) > h.TTL*8/10) {
+			excused = true
+		}
+	}
+	if excused {
+		rec.Count("histories_with_a_holder_that_outlived_its_lease/"+b, 1)
+	}
 	for i := 1; i < len(h.CS); i++ {
 		p, c := h.CS[i-1], h.CS[i]
 		if c.Enter < p.Exit {
@@ -283,7 +339,7 @@ func TestC18(t *testing.T) {
 	}
 
 	// scenario A: free-running contention histories, several keys at a time
-	n := env.Pick(160, 2400) / env.NBatch
+	n := env.Pick(200, 2400) / env.NBatch
 	par := 8
 	sem := make(chan struct{}, par)
 	var wg sync.WaitGroup
